@@ -253,7 +253,6 @@ NestedThF64 == {e \o "_th_lin_f64" : e \in {"clrt", "cscore", "cwald"}}
 GodCRow(b) == CHOOSE e \in GodCTab : e[1] = b
 \* calls that only vary the container of another call of the alphabet: left out of the exhaustive 2-call graph (their
 \* footprint and bookkeeping duplicate the list variant); they are in the 1-call graph, the cover and the random histories
-ContainerB == GodCB \cup {e[1] : e \in ContTab} \cup {"project_1d_8_4_open"} \cup Round7B
 
 \* (3) round 6: Spectrum arguments whose corner entries are present and NOT masked (a call that masks the corners temporarily
 \*     really writes), and the layout "V" for EVERY Spectrum argument: the argument is a view (fs[1:-1]; S: fs[::2]; N: fs[::-1]) of
@@ -291,6 +290,7 @@ Round7Tab == {
     <<"from_phi_2d_admix_props_array01", "Spectrum.from_phi", "n", "none", TRUE>> }
 Round7B == {e[1] : e \in Round7Tab}
 
+ContainerB == GodCB \cup {e[1] : e \in ContTab} \cup {"project_1d_8_4_open"} \cup Round7B
 ExtraTab == ExtraTab0 \cup ZeroTab \cup TrivTab \cup ContTab \cup OpenTab \cup Round7Tab
 ExtraB == {e[1] : e \in ExtraTab}
 GodB   == GodB0 \cup GodCB
